@@ -31,14 +31,14 @@ ASSUMPTIONS = [
 ]
 BOUNDS = {
     "quick": "TRI(P) for the 7 point sets with <=6 vertices (42 triangulations) x 270 configurations (+48 flat-connection ones); grids 3x3, 3x4; 5 closed meshes; all n! relabelings for n<=5, transpositions for n=6; face-listing deviations <=2 on n<=4, <=1 on n=5",
-    "thorough": "TRI(P) for all 13 point sets up to 8 vertices (381 triangulations) x 270 configurations (+48 flat); grids; closed meshes; all n! relabelings for n<=6, transpositions for n=7,8 and the 3x3 grid; face-listing deviations <=2 on n<=6, <=1 beyond",
+    "thorough": "TRI(P) for all 13 point sets up to 8 vertices (387 triangulations) x 270 configurations (+48 flat); grids; closed meshes; all n! relabelings for n<=6, transpositions for n=7,8 and the 3x3 grid; face-listing deviations <=2 on n<=6, <=1 beyond",
 }
 
 SEED = int(os.environ.get("VERIF_SEED", "0") or 0)
 TOL = 1e-6
 QUICK_SETS = ["t3+1", "q4", "q4+1", "t3+2", "p5", "p5+1", "q4+2"]
 ALL_SETS = ["t3+1", "q4", "q4+1", "t3+2", "p5", "p5+1", "q4+2", "h6", "h6+1", "p5+2", "h7", "h6+2", "h8"]
-PINNED_COUNTS = {"t3+1": 1, "q4": 2, "q4+1": 3, "t3+2": 2, "p5": 5, "p5+1": 11, "q4+2": 6, "h6": 14, "h6+1": 30,
+PINNED_COUNTS = {"t3+1": 1, "q4": 2, "q4+1": 3, "t3+2": 2, "p5": 5, "p5+1": 11, "q4+2": 6, "h6": 14, "h6+1": 36,
                  "p5+2": 25, "h7": 42, "h6+2": 108, "h8": 132}
 
 
@@ -131,7 +131,7 @@ def tasks(tier):
     meshes = [m for s in sets for m in fam[s]]
     # ---- sweep of the configurations, one task per (mesh, element)
     for name, n, P, tri in meshes:
-        maxdev = 1 if (quick or n >= 8) else 2
+        maxdev = 1 if quick else (2 if n <= 6 else (1 if n == 7 else 0))
         for el in ("vertices", "faces"):
             out.append({"kind": "sweep", "mesh": name, "pts": L.lift(P), "faces": tri, "el": el, "planar": [list(p) for p in P],
                         "maxdev": maxdev})
@@ -159,16 +159,16 @@ def tasks(tier):
             elif n == 6:
                 if quick:
                     continue
-                if idx in (0, last):
+                if idx == last:
                     perms, level = [list(p) for p in itertools.permutations(range(n))][1:], 0
                 else:
-                    perms, level = _transpositions(n), 2
+                    perms, level = _transpositions(n), 1
             elif n == 7:
-                if quick or idx % 2:
+                if quick or idx % 3:
                     continue
                 perms, level = _transpositions(n), 0
             else:
-                if quick or idx % 6:
+                if quick or idx % 8:
                     continue
                 perms, level = _transpositions(n), 0
             for i in range(0, len(perms), CH):
